@@ -74,6 +74,26 @@ def _promo_first(entry):
     return "_got" in c and same_unordered(c["_got"], alt)
 
 
+def _raw_default(entry):
+    """KF12 under C08: the value obtained is what the resolution rules give when a reader-only field's JSON
+    default is handed out as it stands (not as the value it denotes: bytes for bytes/fixed, the float for
+    "NaN"/"Infinity", nested field defaults for records), and that differs from the denoted value"""
+    c = entry["case"]
+    if "_w" not in c or "_got" not in c:
+        return False
+    from spec import resolve as RS
+    from bounded.c08 import same_unordered
+    orig = RS.default_value
+    RS.default_value = lambda s, j, ns, depth=0: j
+    try:
+        alt = RS.resolve_decode(c["_w"], c["_r"], c["_nsw"], c["_nsr"], c["_enc"], 0)[0]
+    except Exception:
+        return False
+    finally:
+        RS.default_value = orig
+    return same_unordered(c["_got"], alt)
+
+
 def _uses_nonconforming_default(d, s, ns, depth=0):
     """the datum omits (somewhere) a field whose JSON default is not itself a conforming
     Python value for the field's type (e.g. "NaN" for a float field, "\\u00ff" for bytes)"""
@@ -247,6 +267,11 @@ BOUNDED = [
          what=("a reader union is resolved to the first branch that matches at all (promotions included), not to the "
                "branch of the writer's own type first: writer int against reader [\"double\", \"int\"] yields 5.0"),
          match=_promo_first),
+    dict(id="KF12", property="C08", clause="resolution",
+         what=("a reader-only field is filled with its JSON default as it stands instead of the value it denotes: bytes/fixed "
+               "defaults come back as str ('\u00ff' not b'\\xff'), \"NaN\"/\"Infinity\" for float/double as the string, a record default "
+               "{} without the nested fields' own defaults"),
+         match=_raw_default),
     dict(id="KF13", property="C01", clause="roundtrip", what=DEDUCTIVE[0]["what"], match=_dictnull),
     dict(id="KF13", property="C02", clause="bytes_equal_spec", what=DEDUCTIVE[0]["what"], match=_dictnull),
     dict(id="KF13", property="C04", clause="file_roundtrip", what=DEDUCTIVE[0]["what"], match=_dictnull),
